@@ -53,7 +53,7 @@ class World:
         self.nmax = cfg.get('nmax', 5)
         from . import fix as _fix
         # universe of names (some are concatenations of others)
-        self.U = tuple(_fix.NAME_OF[ch] for ch in 'abcdefghijkl'[:self.nmax])
+        self.U = tuple(_fix.NAME_OF[ch] for ch in 'abcdefghijklmnop'[:self.nmax])
         if cfg.get('order'):
             cfg['order'] = [_fix.NAME_OF.get(x, x) for x in cfg['order']]
         self.n = self.nmax
@@ -453,7 +453,8 @@ class World:
             return f(*[v for _, v in pairs])
         reusable = all(
             isinstance(v, (dict, set, frozenset, list, tuple, str, int,
-                           bool, type(None))) or hasattr(v, 'node')
+                           bool, type(None), type({}.keys())))
+            or hasattr(v, 'node')
             for _, v in pairs)
         if (keep >> 7) & 1 and reusable:
             # the caller's containers are handed in again, as they are
@@ -694,11 +695,19 @@ class World:
         want = tt.forall(tu, self.n, js) if fa else tt.exists(tu, self.n, js)
         form %= 3
         if form == 0:
+            kind_ = (mask >> 13) % 4
+            qarg = (set(names) if kind_ == 0 else frozenset(names)
+                    if kind_ == 1 else tuple(names) if kind_ == 2
+                    else {x: None for x in names}.keys())
             r = self.call('quantify', keep, ('u', u),
-                          ('qvars', set(names)), ('forall', fa))
+                          ('qvars', qarg), ('forall', fa))
         elif form == 1:
+            kind_ = (mask >> 13) % 4
+            qarg = (list(names) if kind_ == 0 else tuple(names)
+                    if kind_ == 1 else frozenset(names) if kind_ == 2
+                    else {x: True for x in names}.keys())
             r = self.call('forall' if fa else 'exist', keep,
-                          ('qvars', names), ('u', u))
+                          ('qvars', qarg), ('u', u))
         else:
             # the quantified variables are those of the cube, whatever
             # the polarity of its literals
@@ -808,6 +817,14 @@ class World:
         c = self.api.count(u)
         base = tt.popcount(tu) >> (self.n - len(want))
         require(c == base, 'count.wrong', dict(got=c, want=base))
+        # exactly as many variables as the support has: accepted; one
+        # fewer: refused
+        require(self.api.count(u, len(want)) == base, 'count.nvars_wrong',
+                dict(k=len(want)))
+        if want:
+            self.expect_error(
+                lambda: self.api.count(u, len(want) - 1),
+                (ValueError, AssertionError), 'count.too_few_accepted')
         k = len(want) + 1 + i % 3
         c2 = self.api.count(u, k)
         require(c2 == base << (k - len(want)), 'count.nvars_wrong',
@@ -951,6 +968,26 @@ class World:
                     r = self.b.apply('=>', x.ref, y.ref)
                     require((r == 1) == le, 'implies.validity',
                             dict(u=x.ref, v=y.ref))
+        # membership, and Functions as elements of sets / keys of dicts
+        tabs = {x.t for x in es}
+        for x in es:
+            require(x.ref in self.api, 'contains.held_reference_missing')
+        if self.kind == 'autoref':
+            fs = {x.ref for x in es}
+            require(len(fs) == len(tabs), 'function.hash_eq_inconsistent',
+                    dict(got=len(fs), want=len(tabs)))
+            byf = {}
+            for x in es:
+                byf[x.ref] = x.t
+            for x in es:
+                require(byf[x.ref] == x.t, 'function.dict_lookup')
+            require(len(self.A) == len(self.b), 'len.wrapper_differs')
+        else:
+            missing = max(self.b._succ) + 1 + k % 3
+            require(missing not in self.b and -missing not in self.b,
+                    'contains.unknown_node_accepted')
+            require(len({x.ref for x in es}) == len(tabs),
+                    'canon.equal_functions_different_refs')
         self.label('compare_all')
 
     def op_churn(self, seed, mode):
